@@ -470,6 +470,11 @@ func (b *bitstream) validateAnnotatedValue(remainingLength uint64) error {
 	// Adjust remainingLength because we just processed the first byte of the annotated data.
 	remainingLength--
 
+	if code == bitcodeFalse {
+		// A bool keeps its value in the length nibble and has no representation bytes.
+		length = 0
+	}
+
 	// If the above length is 14 or we have an ordered struct (indicated by struct with length 1),
 	// then we need to process additional bytes to figure out the full length.
 	if length == 0x0E || (code == bitcodeStruct && length == 1) {
